@@ -25,8 +25,11 @@ RULE = ('generated documents: blocks (paragraphs, ATX and setext headings, table
         'has >= 2 definitions or a definition is nested or follows its use')
 TRUSTED = ['str.casefold is taken as the Unicode case fold of the specification (table regenerated from the interpreter)']
 ASSUMPTIONS = ['definitions are placed at block boundaries (a definition cannot interrupt a paragraph)']
-PARTIAL = ['document-order of append_footnotes calls and the two-phase parse are block-parser statements: tied by the '
-           'block.footnotes unit and explored, not yet Lean theorems about the parser model']
+PARTIAL = ['the two-phase parse is proved over the whole-document model (C07_two_phase: every inline tokenization of '
+           'Document(lines), at any depth, is given the one table built from all definitions the block phase collected; '
+           'C07_definitions_no_token); that the ORDER in which append_footnotes is called is document order is not proved '
+           '(definitions carry no ghost position in the model): tied by the block.buffer correspondence (definitions in call '
+           'order) and explored over all placements']
 
 FAMILIES = [['foo', 'Foo', 'FOO', 'fOo'], ['bar baz', 'Bar  Baz', 'BAR\tBAZ', 'bar baz'], ['ß', 'ẞ', 'SS', 'ss', 'Ss'],
             ['ΑΓΩ', 'αγω', 'Αγω'], ['x1', 'X1'], ['toto', 'ToTo'], ['é', 'É'], ['a.b-c', 'A.B-C']]
